@@ -356,23 +356,25 @@ Proof.
   assert (T : forall wo, soc_off (snd (wait_out wo)) = true /\ wr_guard true (snd (wait_out wo)) = true /\
                          Spec.C11.ok_from (sview (snd (wait_out wo))) true = true).
   { intros [r|k|]; unfold wait_out; [|destruct (catches gen_exc_bases (XFuture k) TE)|]; repeat split; reflexivity. }
+  assert (A3 : forall pre mid tail, sview pre = [] -> sview mid = [SVerified SAccepted] -> Spec.C11.ok_from (sview tail) true = true ->
+                 Spec.C11.ok_from (sview (pre ++ mid ++ map GWrite request ++ tail)) false = true).
+  { intros pre mid tail H1 H2 H3. rewrite !sview_app, sview_writes, H1, H2. cbn [app Spec.C11.ok_from]. rewrite c11_writes. exact H3. }
+  assert (A1 : forall pre mid tail, soc_off pre = true -> soc_off mid = true -> soc_off tail = true ->
+                 soc_off (pre ++ mid ++ map GWrite request ++ tail) = true).
+  { intros pre mid tail H1 H2 H3. rewrite !soc_off_app, soc_off_writes, H1, H2, H3. reflexivity. }
   destruct c as [fp|]; cbn [presented_of tofu_check]; [|repeat split; reflexivity].
-  destruct (verify s h p fp) as [[| |old] l]; cbn [fst snd app].
+  destruct (verify s h p fp) as [[| |old] l]; cbn [fst snd].
   - destruct (T (w {| mp_soc := negb true; mp_db := db; mp_st := st_conn |})) as (T1 & T2 & T3).
     repeat split.
-    + unfold soc_off in *. cbn [forallb negb andb]. fold (soc_off (map GWrite request ++ snd (wait_out (w {| mp_soc := false; mp_db := db; mp_st := st_conn |})))).
-      rewrite soc_off_app, soc_off_writes. exact T1.
-    + cbn [wr_guard]. rewrite wr_guard_writes. exact T2.
-    + cbn [sview flat_map app]. fold (sview (map GWrite request ++ snd (wait_out (w {| mp_soc := false; mp_db := db; mp_st := st_conn |})))).
-      rewrite sview_app, sview_writes. cbn [Spec.C11.ok_from]. rewrite c11_writes. exact T3.
+    + apply A1; [reflexivity|reflexivity|exact T1].
+    + cbn [app wr_guard]. rewrite wr_guard_writes. exact T2.
+    + apply A3; [reflexivity|reflexivity|exact T3].
     + intro H; exfalso; apply H; reflexivity.
   - destruct (T (w {| mp_soc := negb true; mp_db := db; mp_st := st_conn |})) as (T1 & T2 & T3).
     repeat split.
-    + unfold soc_off in *. cbn [forallb negb andb]. fold (soc_off (map GWrite request ++ snd (wait_out (w {| mp_soc := false; mp_db := db; mp_st := st_conn |})))).
-      rewrite soc_off_app, soc_off_writes. exact T1.
-    + cbn [wr_guard]. rewrite wr_guard_writes. exact T2.
-    + cbn [sview flat_map app]. fold (sview (map GWrite request ++ snd (wait_out (w {| mp_soc := false; mp_db := db; mp_st := st_conn |})))).
-      rewrite sview_app, sview_writes. cbn [Spec.C11.ok_from]. rewrite c11_writes. exact T3.
+    + apply A1; [reflexivity|reflexivity|exact T1].
+    + cbn [app wr_guard]. rewrite wr_guard_writes. exact T2.
+    + apply A3; [reflexivity|reflexivity|exact T3].
     + intro H; exfalso; apply H; reflexivity.
   - repeat split; reflexivity.
 Qed.
@@ -456,3 +458,126 @@ Proof.
   - destruct content as [x|x]; [|discriminate]. cbn [content_bytes] in Hc. rewrite (upload_unencodable _ _ _ _ _ _ _ _ _ _ _ _ _ _ _ _ _ Hc). cbn [snd].
     destruct (Z (XLib (lit "UnicodeEncodeError")) eq_refl) as (A & B & C & D). repeat split; try assumption. intros; apply D.
 Qed.
+
+(* ---------- any outcome of the wait for the response (the peer stalls: WTimeout) ---------- *)
+Lemma sview_wait_out wo : sview (snd (wait_out wo)) = [].
+Proof. destruct wo as [r|k|]; unfold wait_out; [|destruct (catches gen_exc_bases (XFuture k) TE)|]; reflexivity. Qed.
+
+Lemma wait_core request cap dw now t db ctx h p s c wo chunks exc :
+  let r := expected request t db ctx h p s c now (fun _ => wo) in
+  let m := session_call request db cap dw t s h p (presented_of c) now chunks exc in
+  fst (fst r) = fst (fst m) /\ sview (snd r) = snd m /\
+  (t = false \/ snd (tofu_check s h p (presented_of c) now) = SAccepted -> snd (fst r) = fst (wait_out wo)).
+Proof.
+  cbv zeta. rewrite session_call_nf. unfold expected. cbv zeta.
+  destruct t.
+  - destruct c as [fp|]; cbn [presented_of tofu_check].
+    + destruct (verify s h p fp) as [[| |old] l]; cbn [fst snd app].
+      * repeat split. cbn [sview flat_map app].
+        fold (sview (map GWrite request ++ snd (wait_out wo))). rewrite sview_app, sview_writes, sview_wait_out, app_nil_r. reflexivity.
+      * repeat split. cbn [sview flat_map app].
+        fold (sview (map GWrite request ++ snd (wait_out wo))). rewrite sview_app, sview_writes, sview_wait_out, app_nil_r. reflexivity.
+      * repeat split. intros [H|H]; discriminate.
+    + repeat split. intros [H|H]; discriminate.
+  - cbn [fst snd app]. repeat split. cbn [sview flat_map app].
+    fold (sview (map GWrite request ++ snd (wait_out wo))). rewrite sview_app, sview_writes, sview_wait_out, app_nil_r. reflexivity.
+Qed.
+
+Lemma get_single_wait : forall request cap dw now pu url pr t v ctx db s c wo chunks exc,
+  pu url = Ok pr ->
+  let r := gen_get_single pu (fun s h p c => gen_verify s h p c now) gen_get_host_info (fun s h p c => gen_trust s h p c now)
+             m_new (m_step request cap dw CConnected) (m_step request cap dw CSend) (fun _ => wo) (gen_init t v ctx db) s url ConnOk c in
+  let m := session_call request db cap dw t s (Url.p_host pr) (Url.p_port pr) (presented_of c) now chunks exc in
+  fst (fst r) = fst (fst m) /\ sview (snd r) = snd m /\
+  (t = false \/ snd (tofu_check s (Url.p_host pr) (Url.p_port pr) (presented_of c) now) = SAccepted ->
+   snd (fst r) = match wo with
+                 | WResult x => Returned x
+                 | WExc k => if catches gen_exc_bases (XFuture k) (lit "TimeoutError")
+                             then Raised (XNewFrom (lit "TimeoutError") (XFuture k)) else Raised (XFuture k)
+                 | WTimeout => Raised (XNewFrom (lit "TimeoutError") (XLib (lit "TimeoutError")))
+                 end).
+Proof.
+  intros request cap dw now pu url pr t v ctx db s c wo chunks exc Hp.
+  fold (code_get_single request cap dw now pu m_new (fun _ : mproto => wo)).
+  rewrite (flow request cap dw now pu m_new db url pr t v ctx db s c _ (fun _ _ => eq_refl) Hp).
+  destruct (wait_core request cap dw now t db (cfg_ssl_context (gen_init t v ctx db)) (Url.p_host pr) (Url.p_port pr) s c wo chunks exc) as (A & B & C).
+  repeat split; [exact A|exact B|]. intro H. rewrite (C H).
+  destruct wo as [x|k|]; unfold wait_out; [reflexivity| |reflexivity].
+  change (lit "TimeoutError") with TE. destruct (catches gen_exc_bases (XFuture k) TE); reflexivity.
+Qed.
+
+Lemma upload_wait : forall request cap dw now rp pu url content mime token cb base pr t v ctx db s c wo chunks exc,
+  content_bytes content = Some cb -> titan_base url = Some base -> pu (rp base (lit "titan://") (lit "gemini://")) = Ok pr ->
+  let r := gen_upload rp pu (fun s h p c => gen_verify s h p c now) gen_get_host_info (fun s h p c => gen_trust s h p c now)
+             m_new_titan (m_step request cap dw CConnected) (m_step request cap dw CSend) (fun _ => wo) (gen_init t v ctx db) s url content mime token ConnOk c in
+  let m := session_call request true cap dw t s (Url.p_host pr) (Url.p_port pr) (presented_of c) now chunks exc in
+  fst (fst r) = fst (fst m) /\ sview (snd r) = snd m /\
+  (t = false \/ snd (tofu_check s (Url.p_host pr) (Url.p_port pr) (presented_of c) now) = SAccepted ->
+   snd (fst r) = match wo with
+                 | WResult x => Returned x
+                 | WExc k => if catches gen_exc_bases (XFuture k) (lit "TimeoutError")
+                             then Raised (XNewFrom (lit "TimeoutError") (XFuture k)) else Raised (XFuture k)
+                 | WTimeout => Raised (XNewFrom (lit "TimeoutError") (XLib (lit "TimeoutError")))
+                 end).
+Proof.
+  intros request cap dw now rp pu url content mime token cb base pr t v ctx db s c wo chunks exc Hc Hb Hp.
+  rewrite (upload_reduces _ _ _ _ _ _ _ _ _ _ _ _ _ _ _ _ _ cb base Hc Hb).
+  match goal with |- context [gen_get_single ?pu' _ _ _ ?np' _ _ _ _ _ _ _ _] =>
+    fold (code_get_single request cap dw now pu' np' (fun _ : mproto => wo));
+    rewrite (flow request cap dw now pu' np' true url pr t v ctx db s c _ (fun _ _ => eq_refl) Hp) end.
+  destruct (wait_core request cap dw now t true (cfg_ssl_context (gen_init t v ctx db)) (Url.p_host pr) (Url.p_port pr) s c wo chunks exc) as (A & B & C).
+  repeat split; [exact A|exact B|]. intro H. rewrite (C H).
+  destruct wo as [x|k|]; unfold wait_out; [reflexivity| |reflexivity].
+  change (lit "TimeoutError") with TE. destruct (catches gen_exc_bases (XFuture k) TE); reflexivity.
+Qed.
+
+(* the connection attempt of upload, through the reduction *)
+Lemma upload_connect_failure {P : Type} : forall rp pu V G T (np : str -> str -> bool -> P) cm sr w cfg s url content mime token cb base pr cls c,
+  content_bytes content = Some cb -> titan_base url = Some base -> pu (rp base (lit "titan://") (lit "gemini://")) = Ok pr ->
+  gen_upload rp pu V G T np cm sr w cfg s url content mime token (ConnFail cls) c
+  = let pre := [GProto (match cfg_tofu_db cfg with None => true | Some _ => false end);
+                GConnect (cfg_ssl_context cfg) (Url.p_host pr) (Url.p_port pr) (Url.p_host pr); GRaise (XLib cls)] in
+    if catches gen_exc_bases (XLib cls) TE then (s, Raised (XNewFrom TE (XLib cls)), pre ++ [GRaise (XNewFrom TE (XLib cls))])
+    else if catches gen_exc_bases (XLib cls) OSE then (s, Raised (XNewFrom CE (XLib cls)), pre ++ [GRaise (XNewFrom CE (XLib cls))])
+    else (s, Raised (XLib cls), pre).
+Proof.
+  intros rp pu V G T np cm sr w cfg s url content mime token cb base pr cls c Hc Hb Hp.
+  rewrite (upload_reduces _ _ _ _ _ _ _ _ _ _ _ _ _ _ _ _ _ cb base Hc Hb).
+  apply (get_single_connect_failure (fun _ => pu (rp base (lit "titan://") (lit "gemini://")))). exact Hp.
+Qed.
+
+(* ---------- the generated calls depend on their callees only through the values they return: any protocol object whose
+   methods agree pointwise with the model's (e.g. the methods generated from client/protocol.py, Equiv/EquivClient.v) can be
+   substituted in every statement above ---------- *)
+Lemma get_single_ext {P : Type} : forall pu V G T (np : str -> bool -> bool -> P) cm cm' sr sr' w w' cfg s url conn c,
+  (forall p, cm p = cm' p) -> (forall p, sr p = sr' p) -> (forall p, w p = w' p) ->
+  gen_get_single pu V G T np cm sr w cfg s url conn c = gen_get_single pu V G T np cm' sr' w' cfg s url conn c.
+Proof.
+  intros pu V G T np cm cm' sr sr' w w' cfg s url conn c Hcm Hsr Hw. unfold gen_get_single. cbv zeta.
+  repeat match goal with
+  | |- context [cm ?p] => rewrite (Hcm p)
+  | |- context [sr ?p] => rewrite (Hsr p)
+  | |- context [w ?p] => rewrite (Hw p)
+  | |- context [match ?x with _ => _ end] => destruct x eqn:?
+  | |- context [if ?x then _ else _] => destruct x eqn:?
+  end; reflexivity.
+Qed.
+
+Lemma upload_ext {P : Type} : forall rp pu V G T (np : str -> str -> bool -> P) cm cm' sr sr' w w' cfg s url content mime token conn c,
+  (forall p, cm p = cm' p) -> (forall p, sr p = sr' p) -> (forall p, w p = w' p) ->
+  gen_upload rp pu V G T np cm sr w cfg s url content mime token conn c = gen_upload rp pu V G T np cm' sr' w' cfg s url content mime token conn c.
+Proof.
+  intros rp pu V G T np cm cm' sr sr' w w' cfg s url content mime token conn c Hcm Hsr Hw.
+  destruct (content_bytes content) as [cb|] eqn:Hc.
+  - destruct (titan_base url) as [base|] eqn:Hb.
+    + rewrite !(upload_reduces _ _ _ _ _ _ _ _ _ _ _ _ _ _ _ _ _ cb base Hc Hb). apply get_single_ext; assumption.
+    + rewrite !(upload_bad_scheme _ _ _ _ _ _ _ _ _ _ _ _ _ _ _ _ _ cb Hc Hb). reflexivity.
+  - destruct content as [x|x]; [|discriminate]. cbn [content_bytes] in Hc. rewrite !(upload_unencodable _ _ _ _ _ _ _ _ _ _ _ _ _ _ _ _ _ Hc). reflexivity.
+Qed.
+
+(* the protocol object of _get_single is constructed from exactly (the normalised URL, self.decode_bodies, send_on_connect) *)
+Lemma get_single_protocol_args {P : Type} : forall pu V G T (np : str -> bool -> bool -> P) cm sr w cfg s url pr conn c,
+  pu url = Ok pr ->
+  gen_get_single pu V G T np cm sr w cfg s url conn c
+  = gen_get_single pu V G T (fun _ _ soc => np (Url.p_norm pr) (cfg_decode_bodies cfg) soc) cm sr w cfg s url conn c.
+Proof. intros pu V G T np cm sr w cfg s url pr conn c Hp. unfold gen_get_single. rewrite Hp. reflexivity. Qed.
